@@ -88,9 +88,12 @@ func TestC08(t *testing.T) {
 		case x < 56:
 			sp.Fam, sp.Kind, sp.Shape = "bus", "bridge", []int{1 + rnd.Intn(3), 1 + rnd.Intn(3)}
 			sp.Dev = []string{"two", "manual"}[rnd.Intn(2)]
-		case x < 64:
+		case x < 61:
 			sp.Fam, sp.Kind, sp.Shape = "bus", "hubs", []int{1 + rnd.Intn(3), 1 + rnd.Intn(3)}
 			sp.Dev = []string{"same", "nil", "manual"}[rnd.Intn(3)]
+		case x < 64:
+			sp.Fam, sp.Kind, sp.Shape = "bus", "bridgehub", []int{1 + rnd.Intn(3), 1 + rnd.Intn(3)}
+			sp.Dev = "clone"
 		case x < 80:
 			sp.Fam, sp.Kind, sp.Shape = "star", "star", []int{2 + rnd.Intn(4)}
 		case x < 92:
@@ -115,13 +118,19 @@ func TestC08(t *testing.T) {
 		sp := c08Spec{Kind: "churn", Fam: "star", Sock: []string{"star", "xstar"}[i%2], Shape: []int{rnd.Intn(4)}, Steps: 1500 + rnd.Intn(2500), Procs: procs[rnd.Intn(len(procs))]}
 		cases = append(cases, mon.CaseSpec{Name: "churn-" + sp.Sock, Spec: sp})
 	}
+	for i := 0; i < r.Pick(36, 900); i++ {
+		sp := c08Spec{Kind: "resize", Fam: "star", Sock: []string{"star", "xstar"}[i%2], Shape: []int{rnd.Intn(3), (i / 2) % 3}}
+		cases = append(cases, mon.CaseSpec{Name: "resize-" + sp.Sock, Spec: sp})
+	}
 	r.Run(cases, func(c *mon.Case) {
 		sp := c.Spec.(c08Spec)
 		if sp.Procs > 0 {
 			old := runtime.GOMAXPROCS(sp.Procs)
 			c.Cleanup(func() { runtime.GOMAXPROCS(old) })
 		}
-		if sp.Kind == "churn" {
+		if sp.Kind == "resize" {
+			c08Resize(c, sp)
+		} else if sp.Kind == "churn" {
 			c08Churn(c, sp)
 		} else if sp.Kind == "vt" {
 			c08VT(c, sp)
@@ -156,7 +165,7 @@ type c08Graph struct {
 
 func (g *c08Graph) addNode(role string, raw bool) int {
 	n := &c08Node{role: role, member: -1, raw: raw, links: [][]int{nil}}
-	if role == "bridge" {
+	if role == "bridge" || role == "bridgehub" {
 		n.links = [][]int{nil, nil}
 	}
 	if role == "member" {
@@ -217,6 +226,8 @@ func (g *c08Graph) model() *c08Model {
 			out = n.links[0]
 		case "bridge": // raw BUS re-sending on the other socket: all of its peers
 			out = n.links[1-side]
+		case "bridgehub": // both: the other segment, and the rest of the segment it came from
+			out = append(append([]int{}, n.links[0]...), n.links[1]...)
 		}
 		for _, lj := range out {
 			if lj != li {
@@ -266,6 +277,13 @@ func c08Build(sp c08Spec) *c08Graph {
 		}
 	case "bridge":
 		h := g.addNode("bridge", true)
+		for side := 0; side < 2; side++ {
+			for i := 0; i < sp.Shape[side]; i++ {
+				g.addLink(h, side, mem(), 0)
+			}
+		}
+	case "bridgehub":
+		h := g.addNode("bridgehub", true)
 		for side := 0; side < 2; side++ {
 			for i := 0; i < sp.Shape[side]; i++ {
 				g.addLink(h, side, mem(), 0)
@@ -403,7 +421,7 @@ func c08Topo(c *mon.Case, sp c08Spec) {
 			proto = "x" + fam
 		}
 		ns := 1
-		if n.role == "bridge" {
+		if n.role == "bridge" || n.role == "bridgehub" {
 			ns = 2
 		}
 		for i := 0; i < ns; i++ {
@@ -473,9 +491,44 @@ func c08Topo(c *mon.Case, sp c08Spec) {
 			}
 		}()
 	}
+	// a forwarder that takes a second reference to what it received and sends the same message
+	// object on both sockets (bridge to the other segment, reflect to the rest of its own)
+	manualBoth := func(from, other mangos.Socket) {
+		helpers.Add(1)
+		go func() {
+			defer helpers.Done()
+			lr := hx.NewRand(int64(sp.Raw) + 7)
+			for {
+				m, err := from.RecvMsg()
+				if err != nil {
+					return
+				}
+				fwdMu.Lock()
+				forwarded++
+				fwdMu.Unlock()
+				m.Clone()
+				first, second := other, from
+				if lr.Intn(2) == 0 {
+					first, second = from, other
+				}
+				if err := first.SendMsg(m); err != nil {
+					m.Free()
+					m.Free()
+					return
+				}
+				if err := second.SendMsg(m); err != nil {
+					m.Free()
+					return
+				}
+			}
+		}()
+	}
 	for _, n := range g.nodes {
 		var err error
 		switch {
+		case n.role == "bridgehub":
+			manualBoth(n.socks[0], n.socks[1])
+			manualBoth(n.socks[1], n.socks[0])
 		case n.role == "hub" && sp.Dev == "same":
 			err = mangos.Device(n.socks[0], n.socks[0])
 		case n.role == "hub" && sp.Dev == "nil":
